@@ -216,14 +216,17 @@ class MVCCAdapterInstance(Base):
 
     def tpc_finish(self, transaction, func=lambda tid: None):
         modified = self._modified
-        self._modified = None
 
         def invalidate_finish(tid):
             self._base._invalidate_finish(tid, modified, self)
             self._ltid = tid
             func(tid)
 
-        return self._storage.tpc_finish(transaction, invalidate_finish)
+        # (the storage refuses a transaction that is not the one being
+        # committed: nothing may have been forgotten by then)
+        tid = self._storage.tpc_finish(transaction, invalidate_finish)
+        self._modified = None
+        return tid
 
 
 def read_only_writer(self, *a, **kw):
